@@ -139,7 +139,17 @@ fn change_metric_case<D0: crate::Distance, ND: crate::Distance>(d: usize, item_i
     let env = unsafe { EnvOpenOptions::new().map_size(200 * 1024 * 1024).open(dir.path()) }.unwrap();
     let mut wtxn = env.write_txn().unwrap();
     let db: Database<D0> = env.create_database(&mut wtxn, None).unwrap();
-    let w = Writer::<D0>::new(db, 0, d);
+    // neighbouring indexes 6 and 8 share the database and must not be touched
+    for nb in [6u16, 8u16] {
+        let wn = Writer::<D0>::new(db, nb, d);
+        for n in 0..3u32 {
+            let v: Vec<f32> = (0..d).map(|j| if (j as u32 + n) % 2 == 0 { 2.0 + n as f32 } else { -2.0 - j as f32 }).collect();
+            wn.add_item(&mut wtxn, n, &v).unwrap();
+        }
+        let mut rng = StdRng::seed_from_u64(1);
+        wn.builder(&mut rng).n_trees(1).split_after(2).build(&mut wtxn).unwrap();
+    }
+    let w = Writer::<D0>::new(db, 7, d);
     for (n, i) in item_ids.iter().enumerate() {
         let v: Vec<f32> = (0..d).map(|j| if (j + n) % 2 == 0 { 1.0 + n as f32 } else { -1.0 - j as f32 }).collect();
         w.add_item(&mut wtxn, *i, &v).unwrap();
@@ -154,20 +164,30 @@ fn change_metric_case<D0: crate::Distance, ND: crate::Distance>(d: usize, item_i
         w.builder(&mut rng).n_trees(1).split_after(2).build(&mut wtxn).unwrap();
     }
     let old: Vec<(u32, Vec<f32>)> = w.iter(&wtxn).unwrap().map(|r| r.unwrap()).collect();
+    let others = |txn: &heed::RwTxn| -> Vec<(Vec<u8>, Vec<u8>)> {
+        db.remap_types::<Bytes, Bytes>().iter(txn).unwrap().map(|r| r.unwrap())
+            .filter(|(k, _)| k[0..2] != 7u16.to_be_bytes()).map(|(k, v)| (k.to_vec(), v.to_vec())).collect()
+    };
+    let others_before = others(&wtxn);
     let nw = w.prepare_changing_distance::<ND>(&mut wtxn).unwrap();
+    let others_after = others(&wtxn);
+    if others_before != others_after {
+        verdict.push(format!("changing the metric of index 7 modified other indexes: {} entries before, {} afterwards",
+            others_before.len(), others_after.len()));
+    }
     // reference: a fresh database where the same vectors are added under ND
     let dir2 = tempfile::tempdir().unwrap();
     let env2 = unsafe { EnvOpenOptions::new().map_size(200 * 1024 * 1024).open(dir2.path()) }.unwrap();
     let mut w2txn = env2.write_txn().unwrap();
     let db2: Database<ND> = env2.create_database(&mut w2txn, None).unwrap();
-    let rw = Writer::<ND>::new(db2, 0, d);
+    let rw = Writer::<ND>::new(db2, 7, d);
     for (i, v) in &old {
-        rw.add_item(&mut w2txn, *i, v).unwrap();
+        rw.add_item(&mut w2txn, *i, &v[..d.min(v.len())]).unwrap();
     }
     let raw = db.remap_types::<Bytes, Bytes>();
     let raw2 = db2.remap_types::<Bytes, Bytes>();
     for (i, _) in &old {
-        let key = Key::item(0, *i);
+        let key = Key::item(7, *i);
         let kb = KeyCodec::bytes_encode(&key).unwrap();
         let got = raw.get(&wtxn, &kb).unwrap().map(|b| b.to_vec());
         let want = raw2.get(&w2txn, &kb).unwrap().map(|b| b.to_vec());
@@ -181,6 +201,9 @@ fn change_metric_case<D0: crate::Distance, ND: crate::Distance>(d: usize, item_i
     for r in raw.iter(&wtxn).unwrap() {
         let (k, _) = r.unwrap();
         let key = KeyCodec::bytes_decode(k).unwrap();
+        if key.index != 7 {
+            continue;
+        }
         if key.node.mode == NodeMode::Tree || (key.node.mode == NodeMode::Metadata && key.node.item == 0) {
             verdict.push(format!("after changing the metric the key {:?} of the old forest/metadata is still there", key.node));
             break;
@@ -203,6 +226,51 @@ fn change_metric_case<D0: crate::Distance, ND: crate::Distance>(d: usize, item_i
     verdict
 }
 
+fn iter_items_case<D0: crate::Distance>(d: usize, item_ids: &[u32], side: &str) -> Vec<String> {
+    let mut verdict = vec![];
+    let dir = tempfile::tempdir().unwrap();
+    let env = unsafe { EnvOpenOptions::new().map_size(200 * 1024 * 1024).open(dir.path()) }.unwrap();
+    let mut wtxn = env.write_txn().unwrap();
+    let db: Database<D0> = env.create_database(&mut wtxn, None).unwrap();
+    for nb in [6u16, 8u16] {
+        let wn = Writer::<D0>::new(db, nb, d);
+        wn.add_item(&mut wtxn, 0, &vec![1.0; d]).unwrap();
+    }
+    let w = Writer::<D0>::new(db, 7, d);
+    let mut sorted_ids = item_ids.to_vec();
+    sorted_ids.sort();
+    sorted_ids.dedup();
+    for (n, i) in item_ids.iter().enumerate() {
+        let v: Vec<f32> = (0..d).map(|j| if (j + n) % 2 == 0 { 1.0 } else { -1.0 }).collect();
+        w.add_item(&mut wtxn, *i, &v).unwrap();
+    }
+    let mut rng = StdRng::seed_from_u64(0);
+    w.builder(&mut rng).n_trees(1).build(&mut wtxn).unwrap();
+    let got: Vec<(u32, Vec<f32>)> = if side == "reader" {
+        let r = Reader::<D0>::open(&wtxn, 7, db).unwrap();
+        r.iter(&wtxn).unwrap().map(|x| x.unwrap()).collect()
+    } else {
+        w.iter(&wtxn).unwrap().map(|x| x.unwrap()).collect()
+    };
+    let got_ids: Vec<u32> = got.iter().map(|(i, _)| *i).collect();
+    if got_ids != sorted_ids {
+        verdict.push(format!("iteration yields ids {got_ids:?}, stored are {sorted_ids:?}"));
+    }
+    for (i, v) in &got {
+        if v.len() != d {
+            verdict.push(format!("iteration yields {} components for item {i}, the declared dimension is {d}", v.len()));
+            break;
+        }
+        let n = item_ids.iter().position(|x| x == i).unwrap_or(0);
+        let want: Vec<f32> = (0..d).map(|j| if (j + n) % 2 == 0 { 1.0 } else { -1.0 }).collect();
+        if *v != want {
+            verdict.push(format!("iteration yields another vector than the one written for item {i}"));
+            break;
+        }
+    }
+    verdict
+}
+
 #[test]
 fn verif_replay() {
     let path = std::env::var("VERIF_SCENARIO").expect("VERIF_SCENARIO");
@@ -221,11 +289,27 @@ fn verif_replay() {
             last.1.push('\n');
         }
     }
+    // a panic raised at a line of this harness (an unwrap of ours) is a broken replay, not a
+    // reproduction; a panic raised inside arroy or its dependencies is the violation
+    static LAST_PANIC_FILE: std::sync::Mutex<String> = std::sync::Mutex::new(String::new());
+    let default_hook = std::panic::take_hook();
+    std::panic::set_hook(Box::new(move |info| {
+        if let Some(l) = info.location() {
+            *LAST_PANIC_FILE.lock().unwrap() = format!("{}:{}", l.file(), l.line());
+        }
+        default_hook(info);
+    }));
     for (name, text) in scenarios {
         println!("SCENARIO {name}");
+        LAST_PANIC_FILE.lock().unwrap().clear();
         let r = std::panic::catch_unwind(|| run_one(&text));
         if r.is_err() {
-            println!("RESULT violation: panic while running scenario {name}");
+            let at = LAST_PANIC_FILE.lock().unwrap().clone();
+            if at.contains("verif_replay.rs") {
+                println!("RESULT harness-panic: the replay harness itself failed at {at} in scenario {name}");
+            } else {
+                println!("RESULT violation: panic at {at} while running scenario {name}");
+            }
         }
     }
 }
@@ -427,6 +511,20 @@ fn run_one(text: &str) {
                     ("bq_euclidean", "bq_cosine") => go!(Bqe, Bqc),
                     _ => panic!("unsupported metric pair"),
                 }
+            }
+            "iter_items" => {
+                // metric=euclidean|bq_euclidean dim=N side=writer|reader items=a,b : iteration must
+                // yield the stored ids in ascending order with vectors at the declared dimension
+                let d: usize = kv(&tok, "dim").unwrap().parse().unwrap();
+                let item_ids = ids(kv(&tok, "items").unwrap_or("1,2"));
+                let side = kv(&tok, "side").unwrap_or("writer");
+                use crate::distance::BinaryQuantizedEuclidean as Bqe;
+                let r = match kv(&tok, "metric").unwrap() {
+                    "euclidean" => iter_items_case::<Euclidean>(d, &item_ids, side),
+                    "bq_euclidean" => iter_items_case::<Bqe>(d, &item_ids, side),
+                    _ => panic!("unsupported metric"),
+                };
+                verdict.extend(r);
             }
             "budget_equiv" => {
                 // leaving the budget unset with oversampling=o must equal search_k = count * n_trees * o
